@@ -842,9 +842,30 @@ def set_method(I, st, ref, o: SetObj, name, args, kwargs, node):
     if name == "update":
         I.ctx.frame_store(I, st, ref, node, name)
         seq = iter_values(I, st, args[0], node)
-        if seq is None or o.items is None:
-            raise OutOfSubset("set.update symbolic")
-        o.items = _dedupe(st, o.items + _force_guarded(I, st, seq, node))
+        if seq is not None and o.items is not None:
+            o.items = _dedupe(st, o.items + _force_guarded(I, st, seq, node))
+            return None
+        # symbolic: membership becomes old | (exists k < len: xs[k] == x); non-emptiness is tracked alongside
+        if o.items is not None:
+            items0 = list(o.items)
+            old = lambda x, items0=items0: to_z3(_any_eq(st, x, items0)) if items0 else z3.BoolVal(False)
+            old_ne = z3.BoolVal(len(items0) > 0)
+        else:
+            old, old_ne = o.member, (o.nonempty if o.nonempty is not None else None)
+        if seq is not None:
+            items1 = _force_guarded(I, st, seq, node)
+            new = lambda x, items1=items1: to_z3(_any_eq(st, x, items1)) if items1 else z3.BoolVal(False)
+            new_ne = z3.BoolVal(len(items1) > 0)
+        else:
+            n2, g2 = sym_iter_view(I, st, args[0])
+
+            def new(x, n2=n2, g2=g2):
+                kk = z3.Int(fresh_name("sk"))
+                return z3.Exists([kk], z3.And(0 <= kk, kk < to_z3(n2), to_z3(same_kind_eq(st, x, g2(kk)))))
+            new_ne = to_z3(n2) > 0
+        o.items = None
+        o.member = lambda x, old=old, new=new: z3.Or(old(x), new(x))
+        o.nonempty = None if old_ne is None else z3.simplify(z3.Or(old_ne, new_ne))
         return None
     if name == "copy":
         return st.alloc(SetObj(None if o.items is None else list(o.items), o.member))
